@@ -168,9 +168,10 @@ func (rt *Runtime) contextData() map[string]interface{} {
 func (rt *Runtime) plainData() map[string]interface{} {
 	v := rt.Variant
 	d := map[string]interface{}{
-		"rx":  []string{"^a", "c!$", "^x|y$"}[v%3],
-		"f64": 1.5,
-		"n1":  3 + v, "n2": 7, "s1": "ab<c" + strings.Repeat("!", v), "s2": "x y", "b1": true, "b0": false,
+		"rx":   []string{"^a", "c!$", "^x|y$"}[v%3],
+		"f64":  1.5,
+		"many": []int{0, 1, 2, 3, 4, 5, 6, 7, 8, 9, 10, 11, 12, 13, 14, 15, 16, 17, 18, 19},
+		"n1":   3 + v, "n2": 7, "s1": "ab<c" + strings.Repeat("!", v), "s2": "x y", "b1": true, "b0": false,
 		"xs":  []int{4 + v, 5, 6},
 		"ss":  []string{"p", "q&"},
 		"mi":  map[string]int{"k1": 1, "k2": 2, "k3": 3, "k4": 4},
